@@ -674,3 +674,29 @@ M("C20", "twin: harmonic mean as reciprocal of the weighted reciprocal mean", "t
 M("C20", "twin: end slope with the product expanded", "twin", [(PT, "    w1 = 2.0 * h_l + h_r\n    return (w1 * delta_l - h_l * delta_r) / (h_l + h_r)", "    total = h_l + h_r\n    return ((h_l + total) * delta_l - h_l * delta_r) / total")])
 M("C20", "twin: mask written with the constant on the left", "twin", [(PT, "    mask_same_sign = (delta_l * delta_r) > 0", "    mask_same_sign = 0 < (delta_r * delta_l)")])
 M("C20", "twin: secant from a shared difference", "twin", [(PT, "        delta = (self.y[1:] - self.y[:-1]) / h", "        dy = self.y[1:] - self.y[:-1]\n        delta = dy / h")])
+# ---- C19: Brent bracketing invariant
+BR = "emu_base/math/brents_root_finding.py"
+M("C19", "new point replaces the end of the other sign", "kill", [(BR, "        if self.fa * ordinate < 0:\n            self.b, self.fb = abscissa, ordinate\n        else:\n            self.a, self.fa = abscissa, ordinate", "        if self.fa * ordinate < 0:\n            self.a, self.fa = abscissa, ordinate\n        else:\n            self.b, self.fb = abscissa, ordinate")], "BRENT-bracket")
+M("C19", "sign test against fb", "kill", [(BR, "        if self.fa * ordinate < 0:\n            self.b, self.fb", "        if self.fb * ordinate < 0:\n            self.b, self.fb")], "BRENT-bracket")
+M("C19", "swap moves abscissae only", "kill", [(BR, "        if abs(self.fa) < abs(self.fb):\n            self.a, self.b = self.b, self.a\n            self.fa, self.fb = self.fb, self.fa\n\n        self.current_guess = self.b", "        if abs(self.fa) < abs(self.fb):\n            self.a, self.b = self.b, self.a\n\n        self.current_guess = self.b")], "BRENT-bracket")
+M("C19", "update stores the ordinate with the old abscissa", "kill", [(BR, "            self.b, self.fb = abscissa, ordinate\n        else:", "            self.fb = ordinate\n        else:")], "BRENT-bracket")
+M("C19", "better-guess swap inverted", "kill", [(BR, "        if abs(self.fa) < abs(self.fb):\n            self.a, self.b = self.b, self.a\n            self.fa, self.fb = self.fb, self.fa\n\n        self.current_guess = self.b", "        if abs(self.fa) > abs(self.fb):\n            self.a, self.b = self.b, self.a\n            self.fa, self.fb = self.fb, self.fa\n\n        self.current_guess = self.b")], "BRENT-bracket")
+M("C19", "current guess is the worse end", "kill", [(BR, "            self.fa, self.fb = self.fb, self.fa\n\n        self.current_guess = self.b", "            self.fa, self.fb = self.fb, self.fa\n\n        self.current_guess = self.a")], "BRENT-bracket")
+M("C19", "ordinate accepted for any abscissa", "kill", [(BR, "        assert (\n            self.next_abscissa is not None and abscissa == self.next_abscissa\n        ), \"Something went wrong\"\n", "        assert self.next_abscissa is not None, \"Something went wrong\"\n")], "BRENT-bracket")
+M("C19", "constructor accepts equal signs", "kill", [(BR, "        assert self.fa * self.fb < 0, \"Function root needs to be between a and b\"", "        assert self.fa * self.fb <= 0 or True, \"Function root needs to be between a and b\"")], "BRENT-init")
+M("C19", "constructor swaps abscissae only", "kill", [(BR, "            self.a, self.b = self.b, self.a\n            self.fa, self.fb = self.fb, self.fa\n\n        self.c = self.a", "            self.a, self.b = self.b, self.a\n\n        self.c = self.a")], "BRENT-init")
+M("C19", "interpolated step accepted up to the far end", "kill", [(BR, "            (adx >= abs(3 * delta_ab / 4) or dx * delta_ab < 0)", "            (adx >= abs(3 * delta_ab / 2) or dx * delta_ab < 0)")], "BRENT-inside")
+M("C19", "direction test dropped", "kill", [(BR, "            (adx >= abs(3 * delta_ab / 4) or dx * delta_ab < 0)", "            (adx >= abs(3 * delta_ab / 4))")], "BRENT-inside")
+M("C19", "step-halving test dropped after a bisection", "kill", [(BR, "            or (self.bisection and adx >= delta_bc / 2)\n", "")], "BRENT-inside")
+M("C19", "bisection to the wrong side", "kill", [(BR, "            dx = (self.a - self.b) / 2\n", "            dx = (self.b - self.a) / 2\n")], "BRENT-inside")
+M("C19", "history not shifted", "kill", [(BR, "        self.d = self.c\n        self.c, self.fc = self.b, self.fb", "        self.c, self.fc = self.b, self.fb")], "BRENT-inside")
+M("C19", "next abscissa not recorded", "kill", [(BR, "        self.next_abscissa = self.b + dx\n        self.d = self.c", "        nxt = self.b + dx\n        self.d = self.c"), (BR, "        return self.next_abscissa", "        return nxt")], "BRENT-inside")
+M("C19", "convergence on the ordinate", "kill", [(BR, "        return abs(self.b - self.a) < tolerance", "        return abs(self.fb) < tolerance")], "BRENT-driver")
+M("C19", "driver evaluates f at the previous guess", "kill", [(BR, "        root_finder.provide_ordinate(x, f(x))", "        root_finder.provide_ordinate(x, f(root_finder.current_guess))")], "BRENT-driver")
+M("C19", "driver returns the last queried point", "kill", [(BR, "    return root_finder.current_guess", "    return root_finder.next_abscissa")], "BRENT-driver")
+M("C19", "missing f_end taken at start", "kill", [(BR, "    f_end = f_end if f_end is not None else f(end)", "    f_end = f_end if f_end is not None else f(start)")], "BRENT-driver")
+M("C19", "twin: update branches in the other order", "twin", [(BR, "        if self.fa * ordinate < 0:\n            self.b, self.fb = abscissa, ordinate\n        else:\n            self.a, self.fa = abscissa, ordinate", "        if not self.fa * ordinate < 0:\n            self.a, self.fa = abscissa, ordinate\n        else:\n            self.b, self.fb = abscissa, ordinate")])
+M("C19", "twin: sign test on fb with the branches exchanged", "twin", [(BR, "        if self.fa * ordinate < 0:\n            self.b, self.fb = abscissa, ordinate\n        else:\n            self.a, self.fa = abscissa, ordinate", "        if self.fb * ordinate < 0:\n            self.a, self.fa = abscissa, ordinate\n        else:\n            self.b, self.fb = abscissa, ordinate")])
+M("C19", "twin: four-way swap in one statement", "twin", [(BR, "        if abs(self.fa) < abs(self.fb):\n            self.a, self.b = self.b, self.a\n            self.fa, self.fb = self.fb, self.fa\n\n        self.current_guess = self.b", "        if abs(self.fa) < abs(self.fb):\n            self.a, self.b, self.fa, self.fb = self.b, self.a, self.fb, self.fa\n\n        self.current_guess = self.b")])
+M("C19", "twin: midpoint written from a", "twin", [(BR, "            dx = (self.a - self.b) / 2\n", "            dx = 0.5 * self.a - 0.5 * self.b\n")])
+M("C19", "twin: three-quarter bound with the factor outside", "twin", [(BR, "            (adx >= abs(3 * delta_ab / 4) or dx * delta_ab < 0)", "            (adx >= abs(0.75 * delta_ab) or delta_ab * dx < 0)")])
